@@ -522,6 +522,318 @@ def oracle_malformed(value):
     return None
 
 
+# =========================================================================== histories on long-lived objects
+# The property treats every getter / matcher / Response.etag as a pure function of the current header text.  The
+# oracles below therefore use ONE Request, ONE Response and held matcher objects across many different steps and
+# compare every answer (a) with the reference computed from the header text current at that step and (b) with the
+# answer of a brand-new object built from the same text; read-only steps must leave the observable state unchanged.
+GETTERS = {"if_match": "IF_MATCH", "if_none_match": "IF_NONE_MATCH", "if_range": "IF_RANGE"}
+
+
+def ref_of(items):
+    """reference meaning of a header given as items / '*' / None"""
+    if items is None or items == "":
+        return {"kind": "absent", "value": items}
+    if items == "*":
+        return {"kind": "star", "value": "*"}
+    sep_items = [tuple(x) for x in items]
+    return {"kind": "tags", "value": render(sep_items), "all": [t for _, _, t in sep_items],
+            "strong": [t for _, w, t in sep_items if not w]}
+
+
+def ref_answer(ref, which, probe):
+    if ref["kind"] == "absent":
+        return which != "if_none_match"
+    if ref["kind"] == "star":
+        return True
+    if which == "if_none_match":
+        return probe is not None and probe in ref["all"]
+    return probe is not None and probe in ref["strong"]
+
+
+class _Resps:
+    """long-lived Response objects, one per probe tag (strong ETag = probe; None = no ETag)"""
+
+    def __init__(self):
+        self.d = {}
+
+    def get(self, probe):
+        from webob import Response
+        if probe not in self.d:
+            r = Response()
+            if probe is not None:
+                r.etag = (probe, True)
+            self.d[probe] = r
+        return self.d[probe]
+
+
+def ask(req, which, probe, resps):
+    if which == "if_range":
+        return bool(resps.get(probe) in req.if_range)
+    return probe in getattr(req, which)
+
+
+def matcher_state(m):
+    """observable state of a matcher object (for the immutability check)"""
+    from webob.etag import IfRange, IfRangeDate
+    if isinstance(m, IfRange):
+        return ["IfRange", matcher_state(m.etag)]
+    if isinstance(m, IfRangeDate):
+        return ["IfRangeDate", repr(m.date)]
+    return [type(m).__name__, repr(getattr(m, "etags", None)), sorted(getattr(m, "__dict__", {}))]
+
+
+def ask_matcher(m, which, probe, resps):
+    if which == "if_range":
+        return bool(resps.get(probe) in m)
+    return probe in m
+
+
+def oracle_req_history(steps):
+    """ONE Request serving membership tests under all three getters, interleaved with environ edits and with tests on
+    matcher objects obtained earlier.  steps: ["set", which, items|'*'|''|None, via] | ["test", which, probe] |
+    ["hold", which] | ["test-held", index, probe]"""
+    from webob import Request
+    from webob.etag import AnyETag, NoETag
+    req = Request.blank("/")
+    resps = _Resps()
+    cur = {w: ref_of(None) for w in GETTERS}
+    held = []
+    try:
+        for n, st in enumerate(steps):
+            op = st[0]
+            if op == "set":
+                _, which, items, via = st
+                ref = ref_of(items)
+                if via == "attr":
+                    setattr(req, which, ref["value"])
+                elif ref["value"] is None:
+                    req.environ.pop("HTTP_" + GETTERS[which], None)
+                else:
+                    req.environ["HTTP_" + GETTERS[which]] = ref["value"]
+                cur[which] = ref
+            elif op == "test":
+                _, which, probe = st
+                want = ref_answer(cur[which], which, probe)
+                got = ask(req, which, probe, resps)
+                if got is not want:
+                    fresh = ask(mk_request(**{GETTERS[w]: cur[w]["value"] for w in GETTERS}), which, probe, _Resps())
+                    if fresh is want:
+                        return ("history:request:differs-from-fresh",
+                                "step %d: (%r in request.%s) is %r on a Request that served %d earlier steps, but %r on a new "
+                                "Request with the same header %r" % (n, probe, which, got, n, fresh, cur[which]["value"]))
+                    return ("history:request:wrong-answer",
+                            "step %d: (%r in request.%s) is %r for the header %r" % (n, probe, which, got, cur[which]["value"]))
+            elif op == "hold":
+                m = getattr(req, st[1])
+                held.append([st[1], m, dict(cur[st[1]]), matcher_state(m)])
+            elif op == "test-held" and held:
+                which, m, ref, state = held[st[1] % len(held)]
+                want = ref_answer(ref, which, st[2])
+                got = ask_matcher(m, which, st[2], resps)
+                if got is not want:
+                    return ("history:matcher:wrong-answer-after-reuse",
+                            "step %d: a matcher obtained from request.%s for %r answers %r for %r after earlier membership "
+                            "tests" % (n, which, ref["value"], got, st[2]))
+            for which, m, ref, state in held:
+                if matcher_state(m) != state:
+                    return ("history:matcher:mutated-by-membership-test",
+                            "step %d (%r): the matcher obtained from request.%s for %r changed from %r to %r" % (
+                                n, st, which, ref["value"], state, matcher_state(m)))
+        if AnyETag.__dict__ or NoETag.__dict__:
+            return "history:matcher:singleton-mutated", "AnyETag/NoETag carry state: %r %r" % (AnyETag.__dict__, NoETag.__dict__)
+    except Exception as e:  # noqa
+        return "history:request:raises:" + type(e).__name__, "Request history raises %s: %s" % (type(e).__name__, e)
+    return None
+
+
+def oracle_module_order(items, order, shared):
+    """The same header value under the three getters in a given order (first use of that value in the process when the
+    tags are fresh): no getter's answer may depend on which getter saw the value first."""
+    ref = ref_of(items)
+    resps = _Resps()
+    probes = list(dict.fromkeys(ref["all"] + ["zz", None]))
+    try:
+        req = mk_request() if shared else None
+        for which in order:
+            r = req if shared else mk_request()
+            r.environ["HTTP_" + GETTERS[which]] = ref["value"]
+            for p in probes:
+                got, want = ask(r, which, p, resps), ref_answer(ref, which, p)
+                if got is not want:
+                    return ("history:module-order",
+                            "header %r evaluated in the order %s: (%r in request.%s) is %r, expected %r" % (
+                                ref["value"], ">".join(order), p, which, got, want))
+    except Exception as e:  # noqa
+        return "history:module-order:raises:" + type(e).__name__, "%s: %s" % (type(e).__name__, e)
+    return None
+
+
+def oracle_resp_history(steps):
+    """ONE Response whose etag is set / cleared / read repeatedly (strong <-> weak flips, different values) and echoed
+    through ONE Request.  steps: ["set", v, strong|None, "str"|"pair"] | ["none"] | ["read"] | ["echo", which, sep, other]"""
+    from webob import Response, Request
+    resp = Response()
+    req = Request.blank("/")
+    cur = None          # (v, strong) or None
+    try:
+        for n, st in enumerate(steps):
+            op = st[0]
+            if op == "set":
+                _, v, strong, how = st
+                resp.etag = v if how == "str" else (v, strong)
+                cur = (v, True if how == "str" else strong)
+            elif op == "none":
+                resp.etag = None
+                cur = None
+            elif op == "read":
+                for _ in range(2):        # reading twice: reads are not allowed to change anything
+                    got = [resp.headers.get("ETag"), resp.etag, resp.etag_strong, len(resp.headers.getall("ETag"))]
+                    if cur is None:
+                        want = [None, None, None, 0]
+                    else:
+                        want = [render_tag(not cur[1], cur[0]), cur[0], cur[0] if cur[1] else None, 1]
+                    if got != want:
+                        fresh = Response()
+                        if cur is not None:
+                            fresh.etag = cur
+                        fr = [fresh.headers.get("ETag"), fresh.etag, fresh.etag_strong, len(fresh.headers.getall("ETag"))]
+                        key = "history:response:differs-from-fresh" if fr == want else "history:response:wrong-state"
+                        return key, "step %d: after %r the Response shows [raw, etag, etag_strong, #headers] = %r, expected %r " \
+                                    "(a new Response gives %r)" % (n, steps[:n], got, want, fr)
+            elif op == "echo" and cur is not None:
+                # the echoed value goes into all three headers of the ONE Request and is evaluated under all three getters,
+                # starting with the step's own getter (so the order rotates): self-contained w.r.t. value-keyed caches
+                _, first, sep, other = st
+                raw = resp.headers.get("ETag")
+                names = list(GETTERS)
+                for which in names[names.index(first):] + names[:names.index(first)]:
+                    value = raw if which == "if_range" or other is None else render_tag(False, other) + sep + raw
+                    req.environ["HTTP_" + GETTERS[which]] = value
+                    if which == "if_range":
+                        got, want = bool(resp in req.if_range), cur[1]
+                    elif which == "if_none_match":
+                        got, want = resp.etag in req.if_none_match, True
+                    else:
+                        got, want = resp.etag in req.if_match, cur[1] or other == cur[0]
+                    if got is not want:
+                        return ("history:response:echo",
+                                "step %d: ETag %s (set after %d earlier steps) echoed as %s: %s -> match is %r, expected %r" % (
+                                    n, raw, n, which, value, got, want))
+    except Exception as e:  # noqa
+        return "history:response:raises:" + type(e).__name__, "Response history raises %s: %s" % (type(e).__name__, e)
+    return None
+
+
+HIST_TAGS = ["a", "b", "a\\", ",", "x y", "", "W/a", "*"]
+
+
+def r_hist_value(rng):
+    k = rng.random()
+    if k < 0.12:
+        return rng.choice([None, "", "*"])
+    n = rng.randrange(1, 4)
+    return [[rng.choice(SEPS_RFC), rng.random() < 0.45, rng.choice(HIST_TAGS)] for _ in range(n)]
+
+
+def r_req_history(rng, length):
+    pool = [r_hist_value(rng) for _ in range(4)] + [None, "*"]
+    steps = []
+    for _ in range(length):
+        k = rng.random()
+        which = rng.choice(list(GETTERS))
+        probe = rng.choice(HIST_TAGS + [None, "zz"])
+        if k < 0.3:
+            steps.append(["set", which, rng.choice(pool), rng.choice(["environ", "environ", "attr"])])
+        elif k < 0.75:
+            steps.append(["test", which, probe])
+        elif k < 0.85:
+            steps.append(["hold", which])
+        else:
+            steps.append(["test-held", rng.randrange(8), probe])
+    return steps
+
+
+def r_resp_history(rng, length):
+    steps = []
+    vals = ["a", "b", "a\\", ",", "x y", "", "*", "\xe9"]
+    for _ in range(length):
+        k = rng.random()
+        if k < 0.35:
+            how = rng.choice(["str", "pair", "pair"])
+            steps.append(["set", rng.choice(vals), None if how == "str" else rng.random() < 0.5, how])
+        elif k < 0.42:
+            steps.append(["none"])
+        elif k < 0.7:
+            steps.append(["read"])
+        else:
+            steps.append(["echo", rng.choice(list(GETTERS)), rng.choice(SEPS_RFC), rng.choice([None, "a", "b", "zz"])])
+    return steps
+
+
+def run_getters_seq(seq, flip=0):
+    """ONE Request; per step both headers are set to the value (None: removed), the two getters are evaluated in
+    alternating order and probed.  Returns the per-step observations in the format of impl_getters."""
+    from webob import Request
+    req = Request.blank("/")
+    out = []
+    for n, (v, probes) in enumerate(seq):
+        for k in ("HTTP_IF_MATCH", "HTTP_IF_NONE_MATCH"):
+            if v is None:
+                req.environ.pop(k, None)
+            else:
+                req.environ[k] = v
+        if (n + flip) % 2:
+            inm = req.if_none_match
+            r_inm = [p in inm for p in probes]
+            im = req.if_match
+            r_im = [p in im for p in probes]
+        else:
+            im = req.if_match
+            r_im = [p in im for p in probes]
+            inm = req.if_none_match
+            r_inm = [p in inm for p in probes]
+        out.append([v_matcher(im), r_im, v_matcher(inm), r_inm])
+    return out
+
+
+def oracle_getters_seq(seq, flip=0):
+    got = run_getters_seq(seq, flip)
+    for n, (v, probes) in enumerate(seq):
+        fresh = impl_getters(v, probes)
+        if got[n] != fresh:
+            return ("history:request:differs-from-fresh",
+                    "step %d: a Request reused for %d header values answers %r for If-Match/If-None-Match %r (probes %r); a "
+                    "new Request answers %r" % (n, n, got[n], v, probes, fresh))
+    return None
+
+
+def run_set_etag_seq(args):
+    """ONE Response; Response.etag assigned repeatedly; per-step observation in the format of impl_set_etag."""
+    from webob import Response
+    resp = Response()
+    out = []
+    for a in args:
+        try:
+            resp.etag = a[1] if a[0] == "str" else (a[1], a[2])
+        except ValueError:
+            out.append(Err("ValueError"))
+            continue
+        out.append([resp.headers.get("ETag"), resp.etag, resp.etag_strong])
+    return out
+
+
+def oracle_set_etag_seq(args):
+    got = run_set_etag_seq(args)
+    for n, a in enumerate(args):
+        fresh = impl_set_etag(tuple(a))
+        if got[n] != fresh:
+            return ("history:response:differs-from-fresh",
+                    "step %d: Response.etag = %r on a Response assigned %d times before shows %r; a new Response shows %r" % (
+                        n, a, n, got[n], fresh))
+    return None
+
+
 def oracle_case(case):
     """Dispatch on a stored case (replays, correspondence disagreements)."""
     k = case.get("kind")
@@ -539,6 +851,16 @@ def oracle_case(case):
         return oracle_if_range_date(case["d"], case["lms"], case.get("how", "header"))
     if k == "malformed":
         return oracle_malformed(case["value"])
+    if k == "req-history":
+        return oracle_req_history(case["steps"])
+    if k == "module-order":
+        return oracle_module_order(case["items"], case["order"], case["shared"])
+    if k == "resp-history":
+        return oracle_resp_history(case["steps"])
+    if k == "getters-seq":
+        return oracle_getters_seq([tuple(x) for x in case["seq"]], case.get("flip", 0))
+    if k == "set-etag-seq":
+        return oracle_set_etag_seq([tuple(x) for x in case["args"]])
     return None
 
 
@@ -734,6 +1056,37 @@ def run(ctx):
     _corr(ctx, "if-range", "(fun c : list (str * option Z) * option str * list (option str * option str) => obs_if_range (fst (fst c)) (snd (fst c)) (snd c))", cases,
           "(list (str * option Z) * option str * list (option str * option str))")
 
+    # 6. the same model functions against LONG-LIVED objects: one Request whose headers are edited between steps (getters in
+    #    alternating order), one Response whose etag is assigned over and over.  The model is a pure function of the current
+    #    header text, so each step is an ordinary case of `obs_getters` / `obs_set_etag`.
+    r6 = ctx.sub_rng("corr-history")
+    hl = ctx.scale(30, 60)
+    cases = []
+    for h in range(ctx.scale(10, 80)):
+        seq = []
+        pool = [v for v, _ in corr_values(ctx, r6, 6)[-6:]] + [None, "", "*", '"a", W/"b"', 'W/"a", "b"']
+        for _ in range(hl):
+            v = r6.choice(pool)
+            seq.append((v, [None, "a", "b", "*"] + ([v[1:-1]] if v else [])))
+        obs = run_getters_seq(seq, h)
+        for i, (v, probes) in enumerate(seq):
+            cases.append((cpair(costr(v), clist(costr(p) for p in probes)), obs[i],
+                          {"kind": "getters-history", "history": h, "step": i, "value": v,
+                           "oracle": [{"kind": "getters-seq", "seq": [list(x) for x in seq[:i + 1]], "flip": h}]}))
+    _corr(ctx, "getters-history", "(fun c : option str * list (option str) => obs_getters (fst c) (snd c))", cases,
+          "(option str * list (option str))")
+    cases = []
+    for h in range(ctx.scale(10, 80)):
+        args = []
+        for _ in range(hl):
+            v = r_tag(r6, TAG_ALPHA + ['"', "W", "/", "\n", "\\", "b"], 3)
+            args.append(("str", v) if r6.random() < 0.4 else ("pair", v, r6.random() < 0.5))
+        obs = run_set_etag_seq(args)
+        for i, a in enumerate(args):
+            cases.append((carg(a), obs[i], {"kind": "set-etag-history", "history": h, "step": i, "arg": list(a),
+                                            "oracle": [{"kind": "set-etag-seq", "args": [list(x) for x in args[:i + 1]]}]}))
+    _corr(ctx, "set-etag-history", "obs_set_etag", cases, "etag_arg")
+
     # ---------------------------------------------------------------- oracle sweeps (public API, independent reference)
     def sweep(name, gen_cases, nontrivial=lambda c: True):
         cnt = nt = 0
@@ -856,6 +1209,36 @@ def run(ctx):
 
     sweep("malformed", malformed())
 
+    # ---- long-lived objects (statefulness): one Request / one Response / held matchers / module-level order
+    def req_histories():
+        r = ctx.sub_rng("oracle-req-history")
+        for _ in range(ctx.scale(400, 6000)):
+            yield {"kind": "req-history", "steps": r_req_history(r, r.randrange(8, ctx.scale(40, 80)))}
+
+    sweep("history-request", req_histories())
+
+    def module_orders():
+        r = ctx.sub_rng("oracle-module-order")
+        uniq = 0
+        for _ in range(ctx.scale(60, 600)):
+            for order in itertools.permutations(list(GETTERS)):
+                for shared in (False, True):
+                    uniq += 1          # fresh tags: this is the first time the process sees this header value
+                    s_, w_ = "s%d%s" % (uniq, r.choice(["", "\\", ","])), "w%d" % uniq
+                    items = [[False, s_], [True, w_], [r.random() < 0.5, "c%d" % uniq]]
+                    r.shuffle(items)
+                    items = [[r.choice(SEPS_RFC)] + it for it in items]
+                    yield {"kind": "module-order", "items": items, "order": list(order), "shared": shared}
+
+    sweep("history-module-order", module_orders())
+
+    def resp_histories():
+        r = ctx.sub_rng("oracle-resp-history")
+        for _ in range(ctx.scale(400, 6000)):
+            yield {"kind": "resp-history", "steps": r_resp_history(r, r.randrange(6, ctx.scale(40, 80)))}
+
+    sweep("history-response", resp_histories())
+
     ctx.extra["rule"] = (
         "correspondence: header values rendered from random tag lists (tags over {a , SP \\ e-acute b W / * TAB}, RFC separators "
         "and wild ones such as ';', LF, NEL, NBSP, U+3000, none), one-edit mutants and random strings over a quote-heavy alphabet; "
@@ -866,7 +1249,12 @@ def run(ctx):
         "trail; membership must equal the rendered tag list (probes: every tag, its neighbours by one character, quoted forms); "
         "etag-roundtrip-echo = Response.etag set three ways, header shape, read back, echo alone and inside lists; if-range-*; "
         "malformed = every string of length <=%d over {\" \\ W/ , SP a *} + random garbage + date-like values: getters must "
-        "return matchers.  non-trivial = list cases with >1 tag or a non-alphanumeric tag; all other oracle cases count as "
+        "return matchers.  history-* = long-lived objects: ONE Request serving membership tests under all three getters "
+        "interleaved with header edits (environ and attribute setters) and with tests on matcher objects obtained earlier "
+        "(whose state must not change), ONE Response whose etag is set/cleared/read repeatedly with strong/weak flips and "
+        "echoed through ONE Request under all three getters in rotating order, and fresh header values evaluated under the "
+        "three getters in all 6 orders (module-level state); every answer is compared with the reference and with a new "
+        "object; getters-history / set-etag-history feed the same long-lived objects to the Coq model.  non-trivial = list cases with >1 tag or a non-alphanumeric tag; all other oracle cases count as "
         "non-trivial when distinct" % (ctx.scale(3, 5)))
     ctx.extra["exhaustive"] = False
     ctx.assume += [
